@@ -1,5 +1,6 @@
 // C15: rational / inf_rational / lin arithmetic against GMP.
 #include "pbt.h"
+#include "pbt_fuzz.h"
 #include "qx.h"
 #include "rational.h"
 #include "inf_rational.h"
@@ -407,4 +408,4 @@ namespace
   }
 } // namespace
 
-int main(int argc, char **argv) { return pbt::run(argc, argv, case_c15, cfg_for); }
+PBT_MAIN(case_c15, cfg_for)
